@@ -63,6 +63,11 @@ EnumRecords ==
          R_(<<F("a", PrimS("time-millis")), F("b", PrimS("date"))>>),
          R_(<<F("a", Mp(PrimS("date"))), F("b", Arr(PrimS("timestamp-micros")))>>),
          R_(<<F("a", Mp(PrimS("date"))), F("b", Arr(PrimS("time-millis")))>>),
+         \* the writer has BOTH a field with the reader field's name and one with its alias (a rename done in two
+         \* steps): the name wins, whatever the declaration order
+         R_(<<F("q", PrimS("long")), F("a", PrimS("string"))>>),
+         R_(<<F("q", PrimS("string")), F("a", PrimS("long"))>>),
+         R_(<<Fa("a", PrimS("long"), <<"q">>)>>),
          \* enum-typed field with a field default, enum without default / fewer symbols
          R_(<<FDf("a", E3, JStr("A", <<65>>)), F("b", PrimS("string"))>>),
          R_(<<FDf("a", En("ns.E", <<"A", "B">>), JStr("A", <<65>>)), F("b", PrimS("string"))>>) }
